@@ -149,6 +149,18 @@ def parse(ctx, P):
         # the only removal is the single line break before the boundary: truncate by 1 or 2, chosen by ends_with("\r\n")
         tr = b.calls(r'String::truncate$')
         ctx.check(P + ':S16-3:one-line-break-removed', 'R-table', 'exactly two truncate sites (CRLF / LF line break before the signature boundary)', len(tr) == 2, function=b.path)
+    wb = ctx.body(CT + 'CleartextSignedMessage::to_armored_writer')
+    rb = ctx.body(CT + 'read_cleartext_body')
+    if wb is not None and rb is not None:
+        # the reader removes CR LF when the body ends with it, else LF: a text whose last octet is CR followed by the writer's bare LF
+        # is indistinguishable from a text without it.  The writer therefore has to choose the terminator by the last octet of the text.
+        reader_crlf = [i for i, t in rb.calls(r'str::ends_with$')]
+        body_w = [i for i, t in wb.calls(r'Write::write_all$') if has_origin(wb.operand_origins(t['args'][1]), r'field:CleartextSignedMessage\.csf_encoded_text$')]
+        sel = [i for i, t in wb.switches() if has_origin(wb.switch_origins(i), r'field:CleartextSignedMessage\.csf_encoded_text$')
+               and has_origin(wb.switch_origins(i), r'call:.*(ends_with|::last|strip_suffix)$') and not has_origin(wb.switch_origins(i), r'call:std::ops::Try::branch$')]
+        ctx.check(P + ':S16-3:body-terminator-unambiguous', 'R-sib', 'the line break written after the text is chosen by the last octet of the text, because the reader strips CR LF as one terminator '
+                  '(a text ending in CR must not be followed by a bare LF)', bool(reader_crlf) and bool(body_w) and bool(sel), function=wb.path,
+                  missing=None if sel else 'to_armored_writer appends LF unconditionally: text "abc\\r" is read back as "abc" and its signature no longer verifies')
     b = ctx.body(CT + 'validate_headers')
     if b is not None:
         oks = ok_exit_blocks(b)
